@@ -8,6 +8,7 @@ with distinct names and price inputs only:
   the same with two standalone indicators sharing one candle list (B.purge(), B.recalculate()).
 """
 import inspect
+from datetime import timedelta
 import json
 import random
 from copy import deepcopy
@@ -313,7 +314,8 @@ def check_timeframe_pair(col, cfg_a, cfg_b, seed, tf="T5"):
     want_c, want_r = [(c.timestamp, c.open, c.high, c.low, c.close, c.volume) for c in a_alone.candles], list(a_alone.as_list())
     for op in ("purge", "recalculate", "remove_indicator"):
         col.tick()
-        a, b = build(cfg_a, timeframe=tf), build(cfg_b, timeframe=tf)
+        # the other member asks for a lifespan of its own: inside a Hexital it adopts the shared manager's configuration
+        a, b = build(cfg_a, timeframe=tf), build(cfg_b, timeframe=tf, candles_lifespan=timedelta(minutes=10))
         if a.name == b.name:
             return
         col.scenario(("tf", cfg_a[0], cfg_b[0], op))
